@@ -174,7 +174,7 @@ func runC06(c *Ctx) {
 				if !ok {
 					continue
 				}
-				if cf.Ext != "all" && cf.Ext != "cjk" && k == 0 && h%5 == 0 {
+				if cf.Ext != "all" && cf.Ext != "cjk" && cf.FnPrefix == "" && k == 0 && h%5 == 0 {
 					// tie of the renderer model (rendering is a function of options, source and tree)
 					if args, res, okc := treeCase(used, cf, d); okc {
 						c.Case("RenderTree", args, res)
